@@ -232,6 +232,29 @@ def jobs(tier):
     # product: memory safety and result form only (the identity r == a*b is undecided); z3, 20 s
     J("iint.iintTimes.memory_safety_and_result_form", "h_iintTimes_wf", ["iintTimes"], st("a") + st("b") + st("r"), cls="B",
       bound="operands <= 2 digits; the identity r == a*b is NOT decided", unwind=UB + ["--z3"], timeout=600, mem_gb=10)
+    # products against the schoolbook expansion (same 64-bit digit products as the code forms; z3 shares them)
+    SB = "distributivity (the schoolbook sum of digit products IS the product) is pencil and paper, not a solver result"
+    DCONST = [("ffffffff", "0xFFFFFFFFU"), ("1e9", "1000000000U"), ("10", "10U"), ("3", "3U"), ("80000001", "0x80000001U")]
+    for tag, dv in (DCONST if tier == "thorough" else DCONST[:3]):
+        J("iint.iintTimesS.schoolbook.d_%s" % tag, "h_iintTimesS_schoolbook", ["iintTimesS"], st("a") + st("r0") + ["alias", "c"], cls="B",
+          bound="multiplicand <= 3 digits (every value), multiplier digit = %s" % dv, unwind=UB, timeout=600, mem_gb=10, assumed=[SB], defs=["-DSB_D=" + dv])
+        J("iint.iintTimesPlusS.schoolbook.d_%s" % tag, "h_iintTimesPlusS_schoolbook", ["iintTimesPlusS"], st("a") + st("r0") + ["alias", "c"], cls="B",
+          bound="multiplicand <= 3 digits (every value), multiplier digit = %s, any digit addend" % dv, unwind=UB, timeout=600, mem_gb=10, assumed=[SB], defs=["-DSB_D=" + dv])
+    # second operand: ONE constant digit (two constant digits: no result in 600 s, even for 2^32; PROBE only)
+    BCONST = [("0_ffffffff", "0xFFFFFFFFU", "0U"), ("0_3b9aca00", "1000000000U", "0U")]
+    if PROBE:
+        BCONST += [("ffffffff_ffffffff", "0xFFFFFFFFU", "0xFFFFFFFFU"), ("1_0", "0U", "1U"), ("12345678_9abcdef1", "0x9ABCDEF1U", "0x12345678U")]
+    for tag, b0, b1 in (BCONST if tier == "thorough" else BCONST[:1]):
+        J("iint.iintTimes.schoolbook.b_%s" % tag, "h_iintTimes_schoolbook", ["iintTimes"], st("a") + st("b") + st("r"), cls="B",
+          bound="first operand <= 2 digits (every value); second operand's digits are the constants %s, %s (its length 0..2 symbolic)" % (b1, b0),
+          unwind=UB, timeout=600, mem_gb=10, assumed=[SB], defs=["-DSB_B0=" + b0, "-DSB_B1=" + b1])
+    J("canary.iint.iintTimes", "h_iintTimes_schoolbook", ["iintTimes"], st("a") + st("b") + st("r"), cls="B", kind="canary",
+      bound="operands <= 2 digits", unwind=UB + ["--stop-on-fail"], timeout=900, mem_gb=10, defs=["-DCANARY_iintTimes", "-DV_NO_VREACH", "-DSB_B0=0xFFFFFFFFU", "-DSB_B1=0U"])
+    if PROBE:       # a symbolic 32x32-bit digit product: no result on SAT or z3 (900 s)
+        J("iint.iintTimes.schoolbook", "h_iintTimes_schoolbook", ["iintTimes"], st("a") + st("b") + st("r"), cls="B",
+          bound="operands <= 2 digits (64 bits) each", unwind=UB + ["--z3"], timeout=900, mem_gb=10, assumed=[SB])
+        J("iint.iintTimesS.schoolbook", "h_iintTimesS_schoolbook", ["iintTimesS"], st("a") + st("r0") + ["alias", "d", "c"], cls="B",
+          bound="multiplicand <= 3 digits, any non-zero digit multiplier", unwind=UB + ["--z3"], timeout=900, mem_gb=10, assumed=[SB])
     if PROBE:       # undecided (SAT and z3, 1500 s)
         J("iint.iintDivide.memory_safety_and_result_form", "h_iintDivide_wf", ["iintDivide", "iintDivideS", "iintTimesS", "bintLT"],
           st("u") + st("v") + st("q") + st("r"), cls="B",
